@@ -157,6 +157,51 @@ CHECKS.update({
         note=TRUST),
 })
 
+CHECKS.update({
+    'C06': dict(
+        level='other', technique='sibling cross-checking of the Cython binding (lowered to Python) against the Python components; LL(1) FOLLOW-set oracle',
+        design='DESIGN.md 4/C06',
+        text='What libyaml\'s C scanner/emitter do is outside the repository and NOT decided. Decided is the binding, which '
+             're-implements composer, serializer and the token/event codecs: class composition of the 8 loader/dumper pairs, one '
+             'codec branch per libyaml enum member building the homonymous class, consistent style constants, equal feature '
+             'signatures of the two composers and the two serializers, error kinds mapped to the same exception classes, no '
+             'dropped libyaml failure, identical option plumbing. For the Python side two oracles libyaml is known to follow: '
+             'the FOLLOW sets of the documented LL(1) event grammar (computed by the checker) against every empty-node '
+             'decision of parser.py, and the 1024-character simple-key window.',
+        note=TRUST + 'A-LIBYAML: libyaml implements the documented grammar and the 1024-character limit.'),
+    'C07': dict(
+        level='other', technique='linear-form (interval) reasoning on reader index arithmetic, guard evaluation on probe buffers, CFG dominance',
+        design='DESIGN.md 4/C07',
+        text='Equality of results across encodings and chunkings is value-level and NOT decided. Decided: incremental decoding '
+             '(final=eof, tail kept, append on refill, eof only on an empty read); refill guards and amounts of peek/prefix/'
+             'forward cover the largest offset read; the BOM test runs only with two bytes or at end of input; reader error '
+             'positions are the affine expressions implied by the reader invariants; every chunk validated, sentinel appended; '
+             'constant read size; C input-handler cache arithmetic.',
+        note=TRUST),
+    'C08': dict(
+        level='proof', technique='regular-language analysis: regex -> DFA inclusion/disjointness with witnesses + string abstract interpretation of the converters',
+        design='DESIGN.md 4/C08',
+        text='Every obligation is decided for strings of unbounded length by automata: each resolver language equals the YAML 1.1 '
+             'type-repository language; first characters covered by the index; languages pairwise disjoint; resolver timestamp '
+             'inside the constructor regex; every bool word has a value; string abstract interpretation of construct_yaml_int/'
+             'float shows every int()/float()/[0] argument language inside the operation\'s domain; captured timestamp groups '
+             'inside datetime\'s domains; the language each safe representer writes lies in the language the loader accepts. '
+             'Refuted obligations are genuine defects listed as known findings, each scoped by the regular language of its '
+             'counterexamples so that any other counterexample is still reported.',
+        note=TRUST + 'Trusted models: CPython\'s documented grammars of int()/float() and output formats of str(int), repr(float), '
+             'isoformat; the type-repository regexes transcribed in sa.rules_lang.REFERENCE.'),
+    'C09': dict(
+        level='other', technique='reaching definitions + dominance for mark order, per-character evaluation of break sets, path enumeration of parser state functions, LL(1) FOLLOW oracle',
+        design='DESIGN.md 4/C09',
+        text='That each mark equals the position obtained by counting breaks is a run-time equality and NOT decided. Decided: '
+             'indent/flow-level pairing of the scanner; start mark taken before the reader moves and end mark at or after it for '
+             'every two-mark token; the reader advances line exactly on what the scanner consumes as a break (CR LF once); '
+             'index/pointer alignment and affine error positions; KEY inserted at the recorded token number before VALUE; '
+             'every parser state path makes exactly one next-state decision and pushes exactly when it delegates to a node '
+             'state; End events built from peeked tokens are zero-width; empty-node decisions test the grammar\'s FOLLOW sets.',
+        note=TRUST),
+})
+
 NOT_APPLICABLE = {
     'C12': 'Whether ---/... are written where needed depends on run-time values (open_ended, explicit/version/tags of the '
            'event, the last scalar\'s text and style, and one case inside libyaml); there is no invariant of the code\'s shape '
